@@ -5,6 +5,8 @@ verus! {
 
 pub uninterp spec fn remote_raw(world: int, contract: Seq<char>) -> Raw;
 pub uninterp spec fn smart_answer(world: int, contract: Seq<char>, msg: Seq<u8>) -> Option<Seq<u8>>;
+/// the contract exists and answers raw queries in this world
+pub uninterp spec fn raw_query_ok(world: int, contract: Seq<char>) -> bool;
 
 pub enum WasmQuery { Smart { contract_addr: String, msg: Binary }, Raw { contract_addr: String, key: Binary }, ContractInfo { contract_addr: String } }
 pub enum BankQuery { Balance { address: String, denom: String }, AllBalances { address: String } }
@@ -20,7 +22,12 @@ impl<'a, C: CustomQuery> QuerierWrapper<'a, C> {
             QueryRequest::Wasm(WasmQuery::Smart { contract_addr, msg }) =>
                 smart_answer(self.world(), contract_addr@, msg@) is Some
                 && U::unjson(smart_answer(self.world(), contract_addr@, msg@)->Some_0) == Some(r->Ok_0),
-            _ => true }
+            _ => true },
+            // a smart query succeeds exactly when the remote contract answers and the answer decodes
+            match request {
+                QueryRequest::Wasm(WasmQuery::Smart { contract_addr, msg }) =>
+                    (smart_answer(self.world(), contract_addr@, msg@) is Some && U::unjson(smart_answer(self.world(), contract_addr@, msg@)->Some_0) is Some) ==> r is Ok,
+                _ => true }
     { unimplemented!() }
     /// cosmwasm_std `query_wasm_smart(contract_addr, &msg)`
     #[verifier::external_body]
@@ -40,7 +47,10 @@ impl<K: KeyT, V: SerT> Map<K, V> {
     /// cw-storage-plus `Map::query`: raw read of one entry of the remote contract's map
     #[verifier::external_body]
     pub fn query<C: CustomQuery>(&self, querier: &QuerierWrapper<C>, remote_contract: Addr, k: K) -> (r: StdResult<Option<V>>)
-        ensures r is Ok ==> r->Ok_0 == self.get(remote_raw(querier.world(), remote_contract@), k)
+        ensures r is Ok ==> r->Ok_0 == self.get(remote_raw(querier.world(), remote_contract@), k),
+            // a raw query of an existing contract fails only if the stored value does not parse
+            raw_query_ok(querier.world(), remote_contract@)
+                && (!remote_raw(querier.world(), remote_contract@).contains_key(self.rawkey(k)) || self.get(remote_raw(querier.world(), remote_contract@), k) is Some) ==> r is Ok
     { unimplemented!() }
 }
 
